@@ -186,6 +186,7 @@ mutual
         else if info = 26 ∨ info = 27 then (match readDouble (ib :: s) with | .ok b r => .ok (.dbl b) r | .fail f => .fail f)
         else .fail (.err .unknownType)                                     -- 0..19, 24, 28..30 and a stray break
       else .fail .skip                                                     -- not a uint8_t
+  termination_by structural fuel => fuel
   /-- parse_mode::array: `index < length → ++index; read_item` -/
   def items (maxDepth : Nat) : Nat → Nat → Nat → Bytes → Res (List Item)
     | _, _, 0, s => .ok [] s
@@ -196,6 +197,7 @@ mutual
       | .ok x s1 => match items maxDepth fuel depth n s1 with
         | .ok xs rest => .ok (x :: xs) rest
         | .fail f => .fail f
+  termination_by structural fuel => fuel
   /-- parse_mode::indefinite_array: peek; eof → unexpected_eof; 0xff → end_array; else read_item -/
   def itemsIndef (maxDepth : Nat) : Nat → Nat → Bytes → Res (List Item)
     | 0, _, _ => .fail .fuel
@@ -207,6 +209,7 @@ mutual
         | .ok x s1 => match itemsIndef maxDepth fuel depth s1 with
           | .ok xs rest => .ok (x :: xs) rest
           | .fail f => .fail f
+  termination_by structural fuel => fuel
   /-- parse_mode::map_key / map_value -/
   def members (maxDepth : Nat) : Nat → Nat → Nat → Bytes → Res (List (Item × Item))
     | _, _, 0, s => .ok [] s
@@ -219,6 +222,7 @@ mutual
         | .ok v s2 => match members maxDepth fuel depth n s2 with
           | .ok ms rest => .ok ((k, v) :: ms) rest
           | .fail f => .fail f
+  termination_by structural fuel => fuel
   /-- parse_mode::indefinite_map_key / indefinite_map_value (the break is looked for at key positions only) -/
   def membersIndef (maxDepth : Nat) : Nat → Nat → Bytes → Res (List (Item × Item))
     | 0, _, _ => .fail .fuel
@@ -232,6 +236,7 @@ mutual
           | .ok v s2 => match membersIndef maxDepth fuel depth s2 with
             | .ok ms rest => .ok ((k, v) :: ms) rest
             | .fail f => .fail f
+  termination_by structural fuel => fuel
 end
 
 /-- `cbor_options::max_nesting_depth()` default (tied to the header by Extracted.Defaults, Props.C10X.default_nesting_depths) -/
